@@ -678,6 +678,32 @@ def several_blocks_of_one_namespace(ctx):
                  bad, ["urn:n1", "Der"], kind="request")
 
 
+def nested_attribute_groups(ctx):
+    """Attribute groups nested two deep, the type that refers to the outer one declared before, between or after the
+    groups: the same attributes on the factory object under every order of declaration."""
+    T = "{%s}" % wsdlkit.TNS
+    decls = {"T": '<xsd:complexType name="T"><xsd:sequence><xsd:element name="e" type="xsd:string"/></xsd:sequence>'
+                  '<xsd:attributeGroup ref="x:Outer"/></xsd:complexType>',
+             "Outer": '<xsd:attributeGroup name="Outer"><xsd:attribute name="a2" type="xsd:string" default="2"/>'
+                      '<xsd:attributeGroup ref="x:Inner"/></xsd:attributeGroup>',
+             "Inner": '<xsd:attributeGroup name="Inner"><xsd:attribute name="a1" type="xsd:string" default="1"/>'
+                      '<xsd:attribute name="a0" type="xsd:int" default="0"/></xsd:attributeGroup>'}
+    el = '<xsd:element name="f"><xsd:complexType><xsd:sequence><xsd:element name="t" type="x:T"/></xsd:sequence></xsd:complexType></xsd:element>'
+    ref = None
+    for order in itertools.permutations(sorted(decls)):
+        meta = {"stream": "nested-attribute-groups", "order": list(order)}
+        ctx.case(common.canon(meta), True)
+        try:
+            c = wsdlkit.client(wsdlkit.wsdl_doc("".join(decls[k] for k in order) + el, "f", None), nosend=True)
+            got = sorted([k, str(v)] for k, v in c.factory.create(T + "T"))
+        except Exception as e:
+            got = "%s: %s" % (type(e).__name__, e)
+        want = [["_a0", "0"], ["_a1", "1"], ["_a2", "2"], ["e", "None"]]
+        if got != want:
+            ctx.fail("two renderings of one interface build different factory objects", meta, repr(got), repr(want),
+                     kind="factory")
+
+
 def prefix_numbering(ctx):
     """The generated prefixes (ns0, ns1, ...: what str(client) shows and factory.create('nsN:Type') understands) do not
     depend on the order in which a WSDL declares its schema blocks and types - with namespace sorting on or off."""
@@ -729,6 +755,7 @@ def run(ctx):
     parts_attribute_and_element_types(ctx)
     enumeration_aliases_and_autoblend(ctx)
     several_blocks_of_one_namespace(ctx)
+    nested_attribute_groups(ctx)
     ctx.sample({"graph": [[1, [2, 3]], [2, [1]], [3, []]], "note": "D14 witness graph"})
 
 
